@@ -449,6 +449,34 @@ def c05_cases(tier):
                     return "operationName is %r but Variables has the members %s of the other operation (selected %s, normalization %s)" % (names[0], var, sel, nz)
                 return None
             yield case, oracle_same
+    # names are case-sensitive: a name that differs from an operation's only in letter case selects nothing (library / CLI form: every
+    # operation; derive form: an error) - and two operations differing only in case are two operations
+    doc3 = "query Heights($m: String) { a(m: $m) }\nquery heights($b: Int) { b(b: $b) }\nquery Other { c }"
+    schema3 = "type Query { a(m: String): Int b(b: Int): Int c: Int }"
+    for (sel, want_names, want_vars) in (("heights", ["heights"], ["b"]), ("Heights", ["Heights"], ["m"]), ("HEIGHTS", ["Heights", "heights", "Other"], None), ("other", ["Heights", "heights", "Other"], None)):
+        case = {"schema": schema3, "query": doc3, "options": {"mode": "cli", "operation_name": sel}}
+
+        def oracle_case(res, sel=sel, want_names=want_names, want_vars=want_vars):
+            if res["exit"] != 0 or not res["out"] or not res["out"].get("ok"):
+                return "generation failed (selected %s)" % sel
+            toks = res["out"]["tokens"]
+            names = re.findall(r'OPERATION_NAME\s*:\s*&\s*(?:\'static\s*)?str\s*=\s*"([^"]*)"', toks)
+            if sorted(names) != sorted(want_names):
+                return "selecting `%s` (names are case-sensitive) generated the operations %s, expected %s" % (sel, names, want_names)
+            if want_vars is not None:
+                var = sorted((_structs(norm(toks)).get("Variables") or {}).keys())
+                if var != want_vars:
+                    return "selecting `%s`: Variables has the members %s, expected %s" % (sel, var, want_vars)
+            return None
+        yield case, oracle_case
+    for sel in ("HEIGHTS", "other"):
+        case = {"schema": schema3, "query": doc3, "options": {"mode": "derive", "struct_name": sel, "operation_name": sel}}
+
+        def oracle_derive(res, sel=sel):
+            if res["exit"] == 0 and res["out"] and res["out"].get("ok"):
+                return "derive form: the struct name `%s` matches no operation (names are case-sensitive) but code was generated" % sel
+            return None
+        yield case, oracle_derive
     # the document read from a FILE (the derive / CLI path): the query text is the file's text, byte for byte
     d = os.path.join(WORK, "replay-files")
     os.makedirs(d, exist_ok=True)
@@ -648,7 +676,7 @@ def c02_cases(tier):
     schema = ("scalar Date scalar Money scalar JSON scalar date_time enum Kind { A B } enum snake_kind { a_b } enum Unused { X } interface Named { name: String } "
               "type Dog implements Named { name: String born: Date kind: Kind owner: Person best: Named meta: JSON seen: date_time sk: snake_kind } type Cat implements Named { name: String price: Money } "
               "type Person { name: String since: Date pets: [Pet!] bestie: Person } union Pet = Dog | Cat "
-              "input Range { from: Date to: Date inner: Inner } input Inner { kind: Kind amount: Money again: Range } "
+              "input Range { from: Date to: Date inner: Inner } input Inner { kind: Kind amount: Money again: Range tags: [String]! kinds: [Kind!]! } "
               "type Query { me(at: Date, range: Range, kind: Kind, n: Int, id: ID, ids: [ID!]): Person pet: Pet named: Named }")
     queries = [
         "query Q($at: Date) { me(at: $at) { name } }",
@@ -666,13 +694,15 @@ def c02_cases(tier):
     ]
     known = set("Option Vec Box String bool i64 f64 u8 Self str super crate std serde Serialize Deserialize graphql_client".split())
     for q in queries:
-        for mod in (None, "crate::scalars", "rust-normalization", "same-derives"):
+        for mod in (None, "crate::scalars", "rust-normalization", "same-derives", "skip-none"):
             opts = {"mode": "cli"}
             if mod == "same-derives":
                 opts["response_derives"] = "Debug, PartialEq"
                 opts["variables_derives"] = "Debug, PartialEq"
             elif mod == "rust-normalization":
                 opts["normalization"] = "rust"
+            elif mod == "skip-none":
+                opts["skip_serializing_none"] = True
             elif mod:
                 opts["custom_scalars_module"] = mod
             case = {"schema": schema, "query": q, "options": opts}
@@ -699,8 +729,10 @@ def c02_cases(tier):
                         return "module %s defines %s more than once" % (mname, dup)
                     mentioned = set()
                     for st, fields in _structs(t).items():
-                        for f, (_, ty) in fields.items():
+                        for f, (attrs, ty) in fields.items():
                             mentioned |= set(re.findall(r"[A-Za-z_][A-Za-z0-9_]*", ty))
+                            if "Option::is_none" in attrs and not re.match(r"(Box<)?Option<", ty):
+                                return "module %s: member %s.%s has the predicate Option::is_none but the type %s (mismatched types, E0308) for `%s`" % (mname, st, f, ty, q[:60])
                     for em in re.finditer(r"pubenum[A-Za-z0-9_]+\{([^{}]*)\}", t):
                         for v in re.findall(r"\(([^()]*)\)", re.sub(r"#\[[^\]]*\]", "", em.group(1))):
                             mentioned |= set(re.findall(r"[A-Za-z_][A-Za-z0-9_]*", v))
@@ -841,6 +873,23 @@ def c08_cases(tier):
             return "the same call gives different token streams in two fresh processes"
         return None
     yield {"calls": [ok]}, oracle3
+    # every option that feeds an ordered collection of the generator set at once (derive lists, extern enums, custom scalars module)
+    rich = {"schema_path": good_s, "query_path": good_q, "options": {"mode": "cli", "response_derives": "Debug,Clone,PartialEq,Eq,Hash", "variables_derives": "Debug,Clone,PartialOrd,Ord,Hash",
+                                                                    "normalization": "rust"}}
+
+    def oracle4(res):
+        if res["exit"] != 0 or not res["out"] or not res["out"]["results"][0].get("ok"):
+            return "generation failed with derive lists set: %s" % (res["stderr"] or res["out"])
+        first = res["out"]["results"][0].get("tokens")
+        for k in range(3):
+            again = run_case({"calls": [rich, rich]})
+            if not again["out"]:
+                return "process died: %s" % again["stderr"]
+            for r in again["out"]["results"]:
+                if r.get("tokens") != first:
+                    return "the same call (several extra derives) gives different token streams across calls / fresh processes"
+        return None
+    yield {"calls": [rich]}, oracle4
     for hist in ([ok, bad, ok], [bad, ok], [ok, ok], [bad, bad, ok]):
         case = {"calls": hist}
 
